@@ -382,7 +382,8 @@ namespace sim
                 unlink(errPath.c_str());
                 return rr;
             }
-            unlink(errPath.c_str());
+            if (!getenv("VERIF_KEEP_STDERR"))
+                unlink(errPath.c_str());
             if (!haveResult)
             {
                 r.vclass = o.prop + ".crash" + e.crashContext(plan) + " how=no-result";
